@@ -569,7 +569,7 @@ impl Property for C16 {
     fn assumptions(&self) -> Vec<String> {
         vec![
             "all symbols in these programs are referenced by absolute names and arms declare only global symbols, so that splicing cannot re-parent declarations made in earlier rounds (the statement is silent on that)".into(),
-            "defines name constants or nothing, never labels".into(),
+            "a define that names a label names no declared constant (an error); a #once file included from inside an arm may be refused with a diagnostic naming #once (whether it was included before is not known until the conditions are decided), but must never be mis-assembled".into(),
         ]
     }
     fn tape_len(&self, _t: Tier) -> usize {
